@@ -25,6 +25,7 @@ def Supported : PyVal → Prop
   | .opaque _ _ => True
   | .objarray shape cells =>
     shape ≠ [] ∧ cells.length = shape.foldl (· * ·) 1 ∧ cells.length ≠ 0 ∧ ScalarCells cells
+  | .obj _ state => Supported state            -- C07: an estimator whose state is supported
   | _ => False
 def SupportedAll : PyVals → Prop
   | .nil => True
@@ -50,6 +51,7 @@ theorem supported_wf : ∀ v : PyVal, Supported v → v.WF ∧ v.NoProperty
     cases cls <;> simp_all [Supported]
   | .opaque _ _, _ => ⟨trivial, trivial⟩
   | .objarray _ cells, h => scalarCells_wf cells h.2.2.2
+  | .obj _ state, h => supported_wf state h
   | .namedtuple _ _, h => by simp [Supported] at h
   | .tupleSub _ _, h => by simp [Supported] at h
   | .frozenset _, h => by simp [Supported] at h
@@ -78,6 +80,7 @@ theorem scalarCells_wf : ∀ xs : PyVals, ScalarCells xs → xs.WF ∧ xs.NoProp
   | .cons (.dict _ _) _, h => by simp [ScalarCells] at h
   | .cons (.opaque _ _) _, h => by simp [ScalarCells] at h
   | .cons (.objarray _ _) _, h => by simp [ScalarCells] at h
+  | .cons (.obj _ _) _, h => by simp [ScalarCells] at h
   | .cons .property _, h => by simp [ScalarCells] at h
   | .cons (.unsupported _) _, h => by simp [ScalarCells] at h
 end
@@ -102,6 +105,7 @@ theorem supported_encodes : ∀ v : PyVal, Supported v → ∃ s, encode v = som
     obtain ⟨ss, hs⟩ := scalarCells_encodes cells h.2.2.2
     have hne : shape.isEmpty = false := by cases shape <;> simp_all [Supported]
     simp [encode, hne, h.2.1, hs]
+  | .obj cls state, h => by obtain ⟨c, hc⟩ := supported_encodes state h; simp [encode, hc]
   | .namedtuple _ _, h => by simp [Supported] at h
   | .tupleSub _ _, h => by simp [Supported] at h
   | .frozenset _, h => by simp [Supported] at h
@@ -135,6 +139,7 @@ theorem scalarCells_encodes : ∀ xs : PyVals, ScalarCells xs → ∃ ss, encode
   | .cons (.dict _ _) _, h => by simp [ScalarCells] at h
   | .cons (.opaque _ _) _, h => by simp [ScalarCells] at h
   | .cons (.objarray _ _) _, h => by simp [ScalarCells] at h
+  | .cons (.obj _ _) _, h => by simp [ScalarCells] at h
   | .cons .property _, h => by simp [ScalarCells] at h
   | .cons (.unsupported _) _, h => by simp [ScalarCells] at h
 end
